@@ -61,6 +61,9 @@ META = {
     "C17": {"technique": "property-based generators of the concurrent checks executed under the Go race detector with injected delays",
             "level_text": "Dynamic race detection over generated concurrent executions (overlapping runs, cancellations, loops, provider histories, concurrent preparation) perturbed by delay plans; a report is attributed to the engine by the owner frame of the racing access.",
             "level_note": "trusted base: the Go race detector, the attribution rule in harness/props/c17_test.go; the harness itself runs under the same detector"},
+    "C20": {"technique": "differential property-based testing: generated workflow file trees through six engine-API configurations, the direct executor and the CLI function",
+            "level_text": "Differential testing over generated file trees and configurations: every way of running the same texts must agree on output id, data and failure, agree with the reference, classify the result by the declared or inferred error flag, and map to the documented exit code.",
+            "level_note": "trusted base: the scratch-directory plumbing (harness/vrun/engine.go), the reference model; the package-main worker calls cmd/arcaflow's unexported runWorkflow through an overlaid test file"},
 }
 
 NOT_APPLICABLE = []
